@@ -89,4 +89,36 @@ theorem covered_sound (succ : List (List Nat)) (entries : List Nat) (sites : Lis
     have := validPath_reach succ entries p hne hv
     rw [hn] at this; exact this
 
+theorem coveredZip_sound (succ : List (List Nat)) (entries : List Nat) (sites : List (Nat × String)) :
+    ∀ (paths : List (List Nat)) (keys : List String), coveredZip succ entries sites paths keys = true →
+      ∀ k ∈ keys, ∃ s ∈ sites, s.2 = k ∧ Reach succ entries s.1 := by
+  intro paths
+  induction paths with
+  | nil =>
+    intro keys h k hk
+    cases keys with
+    | nil => cases hk
+    | cons _ _ => simp [coveredZip] at h
+  | cons p ps ih =>
+    intro keys h k hk
+    cases keys with
+    | nil => simp [coveredZip] at h
+    | cons k0 ks =>
+      simp only [coveredZip, Bool.and_eq_true] at h
+      obtain ⟨⟨hv, hl⟩, hrest⟩ := h
+      rcases List.mem_cons.mp hk with e | hk'
+      · subst e
+        cases hlast : p.getLast? with
+        | none => rw [hlast] at hl; cases hl
+        | some n =>
+          rw [hlast] at hl
+          have hne : p ≠ [] := by intro e; subst e; simp at hlast
+          have hn : p.getLast hne = n := by
+            have := List.getLast?_eq_some_getLast hne
+            rw [hlast] at this; exact (Option.some.inj this).symm
+          refine ⟨(n, k), by simpa using hl, rfl, ?_⟩
+          have := validPath_reach succ entries p hne hv
+          rw [hn] at this; exact this
+      · exact ih ks hrest k hk'
+
 end Poly.Model.CallGraph
